@@ -72,7 +72,14 @@ def check(run, replay=None):
         for crc in (0, 1):
             swaps.append(S.Scn("X%d" % (2 * j + crc), crc, 50, ["nb", "ny", "r:1:3", "sw:" + c2, "mu", "gt", "nb", "ny", "r:1:3", "w:2:1:7", "nb"],
                                kind=kind, csd=c1, memseed=5 + j, tseed=40 + j, tag="swap"))
-    allscn = legal + over + swaps
+    # an identification handshake that is cut by ONE transient SPI failure (at every position of the handshake in
+    # turn), then the same calls again: the retried calls must re-initialise and address the card by its real kind
+    initfail = []
+    for j, kind in enumerate(("V2HC", "V2SC", "V1SC")):
+        for f in (range(0, 60) if thorough else range(j, 60, 3)):
+            initfail.append(S.Scn("IF%d_%d" % (j, f), (f + j) % 2, 50, ["r:1:3", "r:1:3", "gt", "w:2:1:7", "r:1:2", "nb"], kind=kind, csd=S.csd_for(kind),
+                                  memseed=11 + j, tseed=60 + f, fails=str(f), tag="initfail"))
+    allscn = legal + over + swaps + initfail
     ires = tie.run_impl(allscn)
     mres = tie.run_model(allscn, ires)
     diffs = tie.compare(allscn, ires, mres)
@@ -90,6 +97,10 @@ def check(run, replay=None):
             if res == "panic":
                 bad.append((s, k, "panic in `%s`" % call))
                 continue
+            if s.tag == "initfail" and any(l.startswith("F") for l in r.calltrace.get(k, [])):
+                if not res.startswith("err "):
+                    bad.append((s, k, "an SPI transaction failed during `%s` but it returned %s" % (call, res)))
+                continue        # the call that hit the bus failure: any error; the calls after it are judged as usual
             if s.tag == "overflow":
                 idx = int(p[2]) if p[0] in ("r", "rd") else int(p[1]) if p[0] == "w" else 0
                 if p[0] in ("r", "rd", "w") and not res.startswith("err "):
